@@ -294,10 +294,10 @@ Qed.
 
 (* events other than EProc never change the state of an existing queue *)
 Lemma step_nonproc_sst s e c a b :
-  (forall i, e <> EProc i) ->
+  (forall i, e <> EProc i) -> (forall i c, e <> EProcF i c) ->
   sst (srv s) c = Some a -> sst (srv (step s e).1) c = Some b -> a = b.
 Proof.
-  intros He Ha Hb. destruct e; simpl in Hb; try congruence.
+  intros He He2 Ha Hb. destruct e; simpl in Hb; try congruence.
   - repeat case_match; simpl in Hb; congruence.
   - repeat case_match; simpl in Hb; congruence.
   - destruct (srv s !! q) eqn:E; simpl in Hb; [congruence|].
@@ -312,15 +312,70 @@ Proof.
   - repeat case_match; simpl in Hb; congruence.
   - repeat case_match; simpl in Hb; congruence.
   - by destruct (He i).
+  - by destruct (He2 i c0).
+Qed.
+
+(* ---------- an injected API fault: the step on the state that hides the queue ---------- *)
+Lemma sst_hide s c q : sst (srv (hide s c)) q = if decide (q = c) then None else sst (srv s) q.
+Proof.
+  unfold hide, sst. simpl. destruct (decide (q = c)) as [->|].
+  - by rewrite lookup_delete.
+  - by rewrite lookup_delete_ne.
+Qed.
+
+Lemma hide_absent s c : srv s !! c = None -> srv (hide s c) = srv s.
+Proof. intros H. unfold hide. simpl. by apply delete_notin. Qed.
+
+Lemma procF_fst s i c : (proc_f s i c).1 = restore s c (proc (hide s c) i).1.
+Proof. unfold proc_f. by destruct (proc (hide s c) i). Qed.
+Lemma procF_snd s i c : (proc_f s i c).2 = (proc (hide s c) i).2.
+Proof. unfold proc_f. by destruct (proc (hide s c) i). Qed.
+
+Lemma restore_fields s c s1 :
+  lst (restore s c s1) = lst s1 /\ pgl (restore s c s1) = pgl s1 /\ idx (restore s c s1) = idx s1 /\
+  wq (restore s c s1) = wq s1 /\ maxrq (restore s c s1) = maxrq s1.
+Proof. unfold restore. by destruct (srv s !! c). Qed.
+
+(* the server states after a faulted step: c keeps its state, every other queue has the
+   state the step on the hiding state gives it *)
+Lemma procF_sst s i c q :
+  sst (srv (proc_f s i c).1) q =
+  if decide (q = c) then (match srv s !! c with Some o => Some (q_state o) | None => sst (srv (proc (hide s c) i).1) q end)
+  else sst (srv (proc (hide s c) i).1) q.
+Proof.
+  rewrite procF_fst. unfold restore. destruct (srv s !! c) as [o|] eqn:E; simpl.
+  - rewrite sst_insert. destruct (decide (q = c)); done.
+  - by destruct (decide (q = c)).
+Qed.
+
+(* a queue that is not on the server is not created by a processing step *)
+Lemma proc_absent s i q : sst (srv s) q = None -> sst (srv (proc s i).1) q = None.
+Proof.
+  intros H. pose proof (proc_spec s i) as (_&P). simpl in P.
+  destruct (nth_error (wq s) i) as [r|]; [|by rewrite P].
+  destruct (lst s !! r_q r) as [v|]; [|unfold sst in *; by rewrite P].
+  destruct P as ((Q1&Q2)&_). destruct (decide (q = r_q r)) as [->|Hne].
+  - destruct Q2 as [Q2|[[x Hx] _]]; congruence.
+  - by rewrite Q1.
+Qed.
+
+(* transfer of "no state changes" from the hiding state *)
+Lemma same_states_procF s i c :
+  same_states (hide s c) (proc (hide s c) i).1 -> same_states s (proc_f s i c).1.
+Proof.
+  intros H q. rewrite procF_sst. destruct (decide (q = c)) as [->|Hne].
+  - destruct (srv s !! c) as [o|] eqn:E; [unfold sst; by rewrite E|].
+    rewrite H. rewrite sst_hide. destruct (decide (c = c)); [|done]. unfold sst. by rewrite E.
+  - rewrite H, sst_hide. by destruct (decide (q = c)).
 Qed.
 
 (* ---------- T1: state changes only by a request for that queue, to the table's target ---------- *)
-Theorem only_by_request s e q a b :
-  sst (srv s) q = Some a -> sst (srv (step s e).1) q = Some b -> a <> b ->
-  exists r v, proc_of s e = Some (r, v) /\ r_q r = q /\
+Lemma only_by_request_proc s i q a b :
+  sst (srv s) q = Some a -> sst (srv (proc s i).1) q = Some b -> a <> b ->
+  exists r v, proc_of s (EProc i) = Some (r, v) /\ r_q r = q /\
               b = target (q_state v) (r_act r) (length (pgs_of (idx s) q)).
 Proof.
-  intros Ha Hb Hab. destruct e; try (exfalso; apply Hab; eapply (step_nonproc_sst s); eauto; done).
+  intros Ha Hb Hab.
   simpl in *. pose proof (proc_spec s i) as (_&P). simpl in P.
   destruct (nth_error (wq s) i) as [r|] eqn:E; [|rewrite P in Hb; congruence].
   destruct (lst s !! r_q r) as [v|] eqn:E1; [|unfold sst in *; rewrite P in Hb; congruence].
@@ -330,13 +385,36 @@ Proof.
   - rewrite Q1 in Hb by done. congruence.
 Qed.
 
+Theorem only_by_request s e q a b :
+  sst (srv s) q = Some a -> sst (srv (step s e).1) q = Some b -> a <> b ->
+  exists r v, proc_of s e = Some (r, v) /\ r_q r = q /\
+              b = target (q_state v) (r_act r) (length (pgs_of (idx s) q)).
+Proof.
+  intros Ha Hb Hab. destruct e; try (exfalso; apply Hab; eapply (step_nonproc_sst s); eauto; done).
+  - by apply (only_by_request_proc s i q a b).
+  - simpl in Hb. rewrite procF_sst in Hb. destruct (decide (q = c)) as [->|Hne].
+    + destruct (srv s !! c) as [o|] eqn:E.
+      * unfold sst in Ha. rewrite E in Ha. simpl in Ha. congruence.
+      * unfold sst in Ha. rewrite E in Ha. done.
+    + apply (only_by_request_proc (hide s c) i q a b); [|done|done].
+      rewrite sst_hide. by destruct (decide (q = c)).
+Qed.
+
 Lemma proc_of_inv s e r v :
   proc_of s e = Some (r, v) ->
+  exists i, (e = EProc i \/ exists c, e = EProcF i c) /\ nth_error (wq s) i = Some r /\ lst s !! r_q r = Some v.
+Proof.
+  unfold proc_of. intros H. destruct e; try done;
+  (destruct (nth_error (wq s) i) as [r'|] eqn:E; [|done];
+   destruct (lst s !! r_q r') as [v'|] eqn:E1; [|done]; simplify_eq; eauto 6).
+Qed.
+
+Lemma proc_of_clean_inv s e r v :
+  proc_of_clean s e = Some (r, v) ->
   exists i, e = EProc i /\ nth_error (wq s) i = Some r /\ lst s !! r_q r = Some v.
 Proof.
-  unfold proc_of. intros H. destruct e; try done.
-  destruct (nth_error (wq s) i) as [r'|] eqn:E; [|done].
-  destruct (lst s !! r_q r') as [v'|] eqn:E1; [|done]. simplify_eq. eauto.
+  unfold proc_of_clean. intros H. destruct e; try done.
+  apply proc_of_inv in H as (j&[[= ->]|[c [=]]]&?&?). eauto.
 Qed.
 
 Lemma closeish_closed n : closeish n = SClosed -> n = 0%nat.
@@ -371,16 +449,23 @@ Proof.
   destruct ok; [done|]. destruct (_ || _); done.
 Qed.
 
+Lemma step_closed_noop s e r v :
+  proc_of s e = Some (r, v) -> q_state v = SClosed -> r_act r <> AOpen -> same_states s (step s e).1.
+Proof.
+  intros P Hx Ha. apply proc_of_inv in P as (i&[->|[c ->]]&Hn&Hv); simpl.
+  - by apply (proc_closed_noop s i r v).
+  - apply same_states_procF. by apply (proc_closed_noop (hide s c) i r v).
+Qed.
+
 Theorem closed_only_when_empty s e q a :
   sst (srv s) q = Some a -> a <> SClosed -> sst (srv (step s e).1) q = Some SClosed ->
   pgs_of (idx s) q = [].
 Proof.
   intros Ha Hne Hb.
   destruct (only_by_request s e q a SClosed) as (r&v&P&<-&T); try done.
-  apply proc_of_inv in P as (i&->&Hn&Hv).
   destruct (decide (q_state v = SClosed)) as [Hx|Hx].
   { destruct (decide (r_act r = AOpen)) as [Ho|Ho]; [rewrite Ho in T; done|].
-    exfalso. simpl in Hb. rewrite (proc_closed_noop s i r v) in Hb by done. congruence. }
+    exfalso. rewrite (step_closed_noop s e r v) in Hb by done. congruence. }
   destruct (r_act r), (q_state v); simpl in T; try done;
   symmetry in T; apply closeish_closed in T; by apply nil_length_inv.
 Qed.
@@ -396,7 +481,7 @@ Proof.
   intros F Ha Hb Hab.
   destruct (only_by_request s e q a b) as (r&v&P&<-&T); try done.
   exists r, v. split; [done|]. split; [done|].
-  apply proc_of_inv in P as (i&->&_&Hv).
+  apply proc_of_inv in P as (i&_&_&Hv).
   assert (q_state v = a) as <-. { unfold sst in Ha. rewrite <- F, Hv in Ha. simpl in Ha. congruence. }
   destruct (r_act r); [by left|by right; left| |];
   (destruct (q_state v); simpl in T; subst; try done; try (right; right; by left);
@@ -418,10 +503,10 @@ Proof.
 Qed.
 
 Lemma step_nonproc_new s e c b :
-  (forall i, e <> EProc i) ->
+  (forall i, e <> EProc i) -> (forall i c, e <> EProcF i c) ->
   sst (srv s) c = None -> sst (srv (step s e).1) c = Some b -> b = SEmpty.
 Proof.
-  intros He Ha Hb. destruct e; simpl in Hb; try congruence.
+  intros He He2 Ha Hb. destruct e; simpl in Hb; try congruence.
   - repeat case_match; simpl in Hb; congruence.
   - repeat case_match; simpl in Hb; congruence.
   - destruct (srv s !! q) eqn:E; simpl in Hb; [congruence|].
@@ -435,13 +520,14 @@ Proof.
   - repeat case_match; simpl in Hb; congruence.
   - repeat case_match; simpl in Hb; congruence.
   - by destruct (He i).
+  - by destruct (He2 i c0).
 Qed.
 
 Lemma step_lst s e x :
   sst (lst (step s e).1) root = Some x ->
   sst (lst s) root = Some x \/ sst (srv s) root = Some x.
 Proof.
-  destruct e as [q a|pg q ph|pg q ph|pg|q p|q p|q|q|q|i]; simpl.
+  destruct e as [q a|pg q ph|pg q ph|pg|q p|q p|q|q|q|i|i c]; simpl.
   - by left.
   - by left.
   - repeat case_match; simpl; by left.
@@ -460,6 +546,31 @@ Proof.
     + by left.
   - repeat case_match; simpl; by left.
   - pose proof (proc_spec s i) as (->&_). by left.
+  - rewrite procF_fst. destruct (restore_fields s c (proc (hide s c) i).1) as (->&_).
+    pose proof (proc_spec (hide s c) i) as (->&_). by left.
+Qed.
+
+(* closing the root (lister state not closed / closing) writes nothing, with or without a fault *)
+Lemma step_root_close_noop s e r v :
+  proc_of s e = Some (r, v) -> r_q r = root -> r_act r = AClose -> is_closedish (q_state v) = false ->
+  same_states s (step s e).1.
+Proof.
+  intros P Hr Ha Hc. apply proc_of_inv in P as (i&[->|[c ->]]&Hn&Hv); simpl.
+  - pose proof (proc_spec s i) as (_&P). simpl in P. rewrite Hn, Hv in P. destruct P as (_&R). by apply R.
+  - apply same_states_procF.
+    pose proof (proc_spec (hide s c) i) as (_&P). simpl in P. rewrite Hn, Hv in P. destruct P as (_&R). by apply R.
+Qed.
+
+Lemma step_absent s e q x :
+  sst (srv s) q = None -> sst (srv (step s e).1) q = Some x -> x = SEmpty.
+Proof.
+  intros Ha Hx. destruct e as [q0 a|pg q0 ph|pg q0 ph|pg|q0 p|q0 p|q0|q0|q0|i|i c];
+    try (eapply (step_nonproc_new s); [| |exact Ha|exact Hx]; done).
+  - simpl in Hx. rewrite proc_absent in Hx by done. done.
+  - simpl in Hx. rewrite procF_sst in Hx. destruct (decide (q = c)) as [->|Hne].
+    + destruct (srv s !! c) as [o|] eqn:E; [unfold sst in Ha; by rewrite E in Ha|].
+      rewrite proc_absent in Hx; [done|]. rewrite sst_hide. by destruct (decide (c = c)).
+    + rewrite proc_absent in Hx; [done|]. rewrite sst_hide. by destruct (decide (q = c)).
 Qed.
 
 Theorem root_never_closed_step s e : root_okP s -> root_okP (step s e).1.
@@ -468,24 +579,14 @@ Proof.
   2:{ intros x Hx. apply step_lst in Hx as [?|?]; eauto. }
   intros x Hx.
   destruct (sst (srv s) root) as [a|] eqn:Ha.
-  2:{ destruct e as [q a|pg q ph|pg q ph|pg|q p|q p|q|q|q|i];
-      try (assert (x = SEmpty) as -> by (eapply (step_nonproc_new s); [|exact Ha|exact Hx]; done); done).
-      simpl in Hx. pose proof (proc_spec s i) as (_&P). simpl in P.
-      destruct (nth_error (wq s) i) as [r|]; [|rewrite P in Hx; congruence].
-      destruct (lst s !! r_q r) as [v|]; [|unfold sst in *; rewrite P in Hx; congruence].
-      destruct P as ((Q1&Q2)&_). destruct (decide (root = r_q r)) as [Heq|Hne].
-      - rewrite <- Heq in Q2. destruct Q2 as [Q2|[[? Q2] _]]; congruence.
-      - rewrite Q1 in Hx by done. congruence. }
+  2:{ assert (x = SEmpty) as -> by (eapply step_absent; eauto). done. }
   destruct (decide (a = x)) as [->|Hax]; [by apply Hs|].
   destruct (only_by_request s e root a x) as (r&v&P&Hr&T); try done.
-  apply proc_of_inv in P as (i&->&Hn&Hv).
   assert (Hc : is_closedish (q_state v) = false).
-  { apply Hl. unfold sst. rewrite <- Hr, Hv. done. }
-  simpl in Hx. pose proof (proc_spec s i) as (_&P). simpl in P. rewrite Hn, Hv in P.
-  destruct P as (_&R).
+  { apply proc_of_inv in P as (i&_&Hn&Hv). apply Hl. unfold sst. rewrite <- Hr, Hv. done. }
   destruct (r_act r) eqn:Ea.
   - by subst.
-  - rewrite R in Hx by done. apply Hs. congruence.
+  - rewrite (step_root_close_noop s e r v) in Hx by done. apply Hs. congruence.
   - subst. destruct (q_state v); simpl in *; done.
   - subst. destruct (q_state v); simpl in *; done.
 Qed.
@@ -744,8 +845,8 @@ Qed.
 Lemma law_no_open_under_closed_parent_holds s e :
   law_no_open_under_closed_parent s e (step s e).1 (step s e).2 = true.
 Proof.
-  unfold law_no_open_under_closed_parent. destruct (proc_of s e) as [[r v]|] eqn:P; [|done].
-  apply proc_of_inv in P as (i&->&Hn&Hv). simpl.
+  unfold law_no_open_under_closed_parent. destruct (proc_of_clean s e) as [[r v]|] eqn:P; [|done].
+  apply proc_of_clean_inv in P as (i&->&Hn&Hv). simpl.
   destruct (bool_decide (r_act r = AOpen)) eqn:E1; [|done]. apply bool_decide_eq_true in E1.
   destruct (parent_blocks s v) eqn:E2; [|done].
   destruct (bool_decide (q_state v = SOpen)) eqn:E3; [done|]. apply bool_decide_eq_false in E3.
@@ -756,8 +857,8 @@ Qed.
 
 Lemma law_close_result_holds s e : law_close_result s e (step s e).1 (step s e).2 = true.
 Proof.
-  unfold law_close_result. destruct (proc_of s e) as [[r v]|] eqn:P; [|done].
-  apply proc_of_inv in P as (i&->&Hn&Hv). simpl.
+  unfold law_close_result. destruct (proc_of_clean s e) as [[r v]|] eqn:P; [|done].
+  apply proc_of_clean_inv in P as (i&->&Hn&Hv). simpl.
   destruct (bool_decide (r_act r = AClose)) eqn:E1; [|done]. apply bool_decide_eq_true in E1.
   destruct (bool_decide ((proc s i).2 = OOk)) eqn:E2; [|done]. apply bool_decide_eq_true in E2.
   destruct (bool_decide (r_q r = root)) eqn:E3; [done|]. apply bool_decide_eq_false in E3.
@@ -979,9 +1080,19 @@ Proof.
   - rewrite in_app_iff. simpl. naive_solver.
 Qed.
 
+Lemma idx_complete_proc s i : idx_complete s -> idx_complete (proc s i).1.
+Proof.
+  intros C. unfold proc. destruct (nth_error (wq s) i) as [r|]; [|exact C].
+  destruct (lst s !! r_q r) as [v|]; [|exact C].
+  destruct (exec _ _ _ _) as [s1 ok] eqn:E. apply exec_idx in E as (P&I). simpl in *.
+  assert (C1 : idx_complete s1).
+  { intros pg q ph H. rewrite P in H. apply I; [eauto|]. simpl. rewrite H. eauto. }
+  destruct ok; [exact C1|]. destruct (_ || _); exact C1.
+Qed.
+
 Lemma idx_complete_step s e : idx_complete s -> benign s e -> idx_complete (step s e).1.
 Proof.
-  intros C B. destruct e as [q a|pg q ph|pg q ph|pg|q p|q p|q|q|q|i]; simpl in *.
+  intros C B. destruct e as [q a|pg q ph|pg q ph|pg|q p|q p|q|q|q|i|i c]; simpl in *.
   - exact C.
   - intros pg' q' ph' H. simpl in *. apply idx_add_In.
     destruct (decide (pg' = pg)) as [->|Hne].
@@ -1009,12 +1120,10 @@ Proof.
     + destruct (_ && _); exact C.
     + destruct B as [[? ?]|?]; congruence.
   - destruct (lst s !! q); exact C.
-  - unfold proc. destruct (nth_error (wq s) i) as [r|]; [|exact C].
-    destruct (lst s !! r_q r) as [v|]; [|exact C].
-    destruct (exec _ _ _ _) as [s1 ok] eqn:E. apply exec_idx in E as (P&I). simpl in *.
-    assert (C1 : idx_complete s1).
-    { intros pg q ph H. rewrite P in H. apply I; [eauto|]. simpl. rewrite H. eauto. }
-    destruct ok; [exact C1|]. destruct (_ || _); exact C1.
+  - by apply idx_complete_proc.
+  - rewrite procF_fst. destruct (restore_fields s c (proc (hide s c) i).1) as (_&Hp&Hi&_).
+    assert (C1 : idx_complete (proc (hide s c) i).1) by (apply idx_complete_proc; exact C).
+    intros pg q ph H. rewrite Hp in H. rewrite Hi. by eapply C1.
 Qed.
 
 Theorem idx_complete_run h : forall s, idx_complete s -> benign_hist s h -> idx_complete (run s h).
@@ -1190,9 +1299,21 @@ Qed.
 Lemma wq_wf_push s r : wq_wf s -> (r_ev r = EvOutOfSync -> r_act r = ASync) -> wq_wf (push s r).
 Proof. intros H Hr. unfold wq_wf, push. simpl. apply Forall_app. split; [done|]. by constructor. Qed.
 
+Lemma wq_wf_proc s i : wq_wf s -> wq_wf (proc s i).1.
+Proof.
+  intros W.
+  destruct (nth_error (wq s) i) as [r|] eqn:Hn; [|unfold proc; by rewrite Hn].
+  destruct (proc_emits s i r Hn) as (l&t&Hw&Hl&Ht). unfold wq_wf. rewrite Hw.
+  assert (Hr : r_ev r = EvOutOfSync -> r_act r = ASync).
+  { unfold wq_wf in W. rewrite Forall_forall in W. apply W. eapply nth_error_In; eauto. }
+  apply Forall_app. split; [by apply Forall_remove_nth|]. apply Forall_app. split.
+  + eapply Forall_impl; [|exact Hl]. intros x (Hx&_). simpl. congruence.
+  + destruct Ht as [->| ->]; [constructor|]. constructor; [done|constructor].
+Qed.
+
 Lemma wq_wf_step s e : wq_wf s -> wq_wf (step s e).1.
 Proof.
-  intros W. destruct e as [q a|pg q ph|pg q ph|pg|q p|q p|q|q|q|i]; simpl.
+  intros W. destruct e as [q a|pg q ph|pg q ph|pg|q p|q p|q|q|q|i|i c]; simpl.
   - apply wq_wf_push; [done|]. simpl. done.
   - apply wq_wf_push; [done|]. done.
   - repeat case_match; simpl; try done; apply wq_wf_push; done.
@@ -1202,13 +1323,9 @@ Proof.
   - done.
   - repeat case_match; simpl; try done; apply wq_wf_push; done.
   - repeat case_match; simpl; try done; apply wq_wf_push; done.
-  - destruct (nth_error (wq s) i) as [r|] eqn:Hn; [|unfold proc; by rewrite Hn].
-    destruct (proc_emits s i r Hn) as (l&t&Hw&Hl&Ht). unfold wq_wf. rewrite Hw.
-    assert (Hr : r_ev r = EvOutOfSync -> r_act r = ASync).
-    { unfold wq_wf in W. rewrite Forall_forall in W. apply W. eapply nth_error_In; eauto. }
-    apply Forall_app. split; [by apply Forall_remove_nth|]. apply Forall_app. split.
-    + eapply Forall_impl; [|exact Hl]. intros x (Hx&_). simpl. congruence.
-    + destruct Ht as [->| ->]; [constructor|]. constructor; [done|constructor].
+  - by apply wq_wf_proc.
+  - rewrite procF_fst. unfold wq_wf. destruct (restore_fields s c (proc (hide s c) i).1) as (_&_&_&->&_).
+    apply (wq_wf_proc (hide s c) i). exact W.
 Qed.
 
 Lemma wq_wf_run h : forall s, wq_wf s -> wq_wf (run s h).
@@ -1232,7 +1349,7 @@ Proof.
   intros s W Ha Hb Hab. destruct (only_by_request s e q a b) as (r&v&P&Hq&T); try done.
   exists r, v. repeat split; try done.
   pose proof (wq_wf_run h s0 W) as Wf. fold s in Wf.
-  apply proc_of_inv in P as (i&->&Hn&_).
+  apply proc_of_inv in P as (i&_&Hn&_).
   unfold wq_wf in Wf. rewrite Forall_forall in Wf. specialize (Wf r (nth_error_In _ _ Hn)).
   destruct (r_ev r); auto.
 Qed.
@@ -1285,6 +1402,33 @@ Example quiescent_open_child_both_orders :
   caught_up sD = true /\ sst (srv sD) q2 = Some SClosed /\ sst (srv sD) q3 = Some SOpen /\
   caught_up sE = true /\ sst (srv sE) q2 = Some SClosed /\ sst (srv sE) q3 = Some SOpen /\
   law_children_follow_closed_parent sE = false.
+Proof. vm_compute. repeat split. Qed.
+
+(* ---------- transient API faults ---------- *)
+(* a fault on queue c during a processing step leaves c's server object untouched and the
+   request is retried unless its budget is exhausted *)
+Theorem fault_keeps_queue s i c o :
+  srv s !! c = Some o -> srv (step s (EProcF i c)).1 !! c = Some o.
+Proof.
+  intros H. simpl. rewrite procF_fst. unfold restore. rewrite H. simpl. by rewrite lookup_insert.
+Qed.
+
+(* non-vacuity for faults: closing q2 fails twice at the patch of its only open child q3
+   (q4 was closed by hand); the request is retried, the third attempt succeeds: q2 Closed,
+   q3 Closed and marked, caught up, no quiescent law violated *)
+Definition fault_init : st :=
+  let m : qmap := list_to_map [(1%positive, mkQ None SOpen None); (q2, mkQ (Some 1%positive) SOpen None);
+                               (q3, mkQ (Some q2) SOpen None); (4%positive, mkQ (Some q2) SClosed None)] in
+  mkSt m m ∅ [] [] (-1).
+Definition fault_history : list ev :=
+  let S := [ELSync 1; ELSync q2; ELSync q3; ELSync 4] in
+  [ECmd q2 AClose; EProcF 0 q3] ++ S ++ [EProcF 0 q3] ++ S ++ [EProc 0] ++ S ++ [EProc 0] ++ S ++ [EProc 0] ++ S ++ [EProc 0] ++ S.
+Example fault_retried_then_consistent :
+  let s1 := run fault_init (firstn 2 fault_history) in
+  let s := run fault_init fault_history in
+  sst (srv s1) q2 = Some SOpen /\ scbp (srv s1) q3 = None /\ wq s1 = [mkReq q2 AClose EvCmd 1] /\
+  caught_up s = true /\ sst (srv s) q2 = Some SClosed /\ sst (srv s) q3 = Some SClosed /\ scbp (srv s) q3 = Some true /\
+  law_no_stuck_child s = true /\ law_children_follow_closed_parent s = true.
 Proof. vm_compute. repeat split. Qed.
 
 Lemma laws_accept_model s e :
